@@ -4,6 +4,8 @@ import (
 	"fmt"
 	"go/token"
 	"go/types"
+	"os"
+	"path/filepath"
 	"strings"
 
 	"golang.org/x/tools/go/ssa"
@@ -21,6 +23,8 @@ func init() {
 			"Decides these necessary conditions; does not decide ownership semantics of sinks outside the printed table.",
 		Run: runC11,
 		Mutants: []Mutant{
+			{Name: "helper-returns-mapping-without-identity-check", File: "internal/app/server/connection_code_command_handlers.go", Rule: "R-C11-3",
+				Old: "// 辅助方法\n", New: "// 辅助方法\n\nfunc (h *ActivateConnectionCodeHandler) zzMappingOfCode(id string) string {\n\tm, err := h.connCodeService.GetMapping(id)\n\tif err != nil || m.ListenClientID != m.TargetClientID {\n\t\treturn \"\"\n\t}\n\treturn m.ID\n}\n"},
 			{Name: "gate-removed", File: "internal/protocol/session/command_integration.go", Rule: "R-C11-0",
 				Old: "\tif s.getClientIDFromConnection(connPacket.ConnectionID) <= 0 {\n", New: "\tif s.getClientIDFromConnection(connPacket.ConnectionID) < 0 {\n"},
 			{Name: "context-identity-from-packet", File: "internal/command/executor.go", Rule: "R-C11-1",
@@ -44,8 +48,8 @@ const cmdPkg = "internal/command"
 // identityVerdict classifies the origin of an actor / identity argument.
 func identityVerdict(v ssa.Value) (ok bool, desc string) {
 	desc = originSummary(v)
-	good := strings.Contains(desc, "getClientID") || strings.Contains(desc, "CommandContext.ClientID(param:ctx)") ||
-		strings.Contains(desc, "getClientIDFromConnection") || strings.Contains(desc, "ControlConnection.ClientID(") ||
+	good := strings.Contains(desc, ".getClientID") || strings.Contains(desc, "CommandContext.ClientID(param:ctx)") ||
+		strings.Contains(desc, ".getClientIDFromConnection") || strings.Contains(desc, "ControlConnection.ClientID(") ||
 		strings.Contains(desc, "GetClientIDByConnectionID") || strings.Contains(desc, "ControlConnectionInterface.GetClientID") ||
 		strings.Contains(desc, "ControlConnection.GetClientID")
 	bad := strings.Contains(desc, "alloc:") || strings.Contains(desc, "RequestBody") || strings.Contains(desc, "CommandBody") ||
@@ -570,7 +574,7 @@ func runC11(r *Report) {
 				return true
 			}
 			s := originSummary(bo.X) + "|" + originSummary(bo.Y)
-			if !(strings.Contains(s, o.id) && (strings.Contains(s, "PortMapping.ListenClientID") || strings.Contains(s, "PortMapping.TargetClientID"))) {
+			if !(strings.Contains(s, "."+o.id) && (strings.Contains(s, "PortMapping.ListenClientID") || strings.Contains(s, "PortMapping.TargetClientID"))) {
 				return true
 			}
 			eqEdge := 1
@@ -589,6 +593,89 @@ func runC11(r *Report) {
 		}
 		r.Ob("R-C11-3", CallPos(lk[0]), len(hits) == 0 && eq >= need, fmt.Sprintf("%v are reachable from the %s result only through the edges 'connection identity == party of the object' (%d such edges, %d other ways)", o.sinks, o.lookup, eq, len(hits)), o.fn, "party-before-sink")
 	}
+	// every other function of the command-handler package that fetches a mapping by id (discovered, not
+	// listed): somewhere in it a party field of that mapping is compared with the connection's identity
+	// (the handler's getClientID / the context's ClientID, or a parameter every caller fills with it).
+	// A helper that fetches a mapping for a caller and compares its parties only with other stored
+	// values hands one client's mapping to another.
+	listed := map[string]bool{}
+	for _, o := range objs {
+		listed[o.fn] = true
+	}
+	identityDerived := func(v ssa.Value) bool { return false }
+	identityDerived = func(v ssa.Value) bool {
+		o := originSummary(v)
+		if strings.Contains(o, ".getClientID") || strings.Contains(o, "CommandContext.ClientID") {
+			return true
+		}
+		if p, ok := stripValue(v).(*ssa.Parameter); ok && p.Parent() != nil {
+			f := p.Parent()
+			idx := -1
+			for i, q := range f.Params {
+				if q == p {
+					idx = i
+				}
+			}
+			sites := staticCallSites(r.P, f)
+			if idx < 0 || len(sites) == 0 {
+				return false
+			}
+			for _, c := range sites {
+				if idx >= len(c.Call.Args) {
+					return false
+				}
+				ao := originSummary(c.Call.Args[idx])
+				if !strings.Contains(ao, ".getClientID") && !strings.Contains(ao, "CommandContext.ClientID") {
+					return false
+				}
+			}
+			return true
+		}
+		return false
+	}
+	nDisc := 0
+	c11Files := anchorFiles("C11", r.P.Repo)
+	for _, f := range r.P.FuncsIn(authPkg) {
+		if len(f.Blocks) == 0 || f != Outermost(f) {
+			continue
+		}
+		// the command handlers (the property's anchor files); the tunnel-open validator of the same
+		// package is C04's subject and identifies the requester differently
+		if rp, err := filepath.Rel(r.P.Repo, r.P.Fset.Position(f.Pos()).Filename); err != nil || !c11Files[rp] {
+			continue
+		}
+		short := f.Name()
+		if f.Signature.Recv() != nil {
+			_, tn := recvTypeName(f.Signature.Recv().Type())
+			short = tn + "." + f.Name()
+		}
+		if listed[short] {
+			continue
+		}
+		lk := Calls(f, false, "GetMapping", "GetPortMapping")
+		if len(lk) == 0 {
+			continue
+		}
+		nDisc++
+		cmp := 0
+		Instrs(f, func(in ssa.Instruction) {
+			bo, ok := in.(*ssa.BinOp)
+			if !ok || (bo.Op != token.EQL && bo.Op != token.NEQ) {
+				return
+			}
+			for _, pair := range [][2]ssa.Value{{bo.X, bo.Y}, {bo.Y, bo.X}} {
+				po := originSummary(pair[0])
+				if (strings.Contains(po, "PortMapping.ListenClientID") || strings.Contains(po, "PortMapping.TargetClientID")) && identityDerived(pair[1]) {
+					cmp++
+					if os.Getenv("TV_DEBUG") != "" {
+						fmt.Fprintln(os.Stderr, "DEBUG cmp", short, po, "|", originSummary(pair[1]))
+					}
+				}
+			}
+		})
+		r.Ob("R-C11-3", CallPos(lk[0]), cmp > 0, fmt.Sprintf("a function of the command-handler package that fetches a mapping by id compares a party of it with the connection's identity (%d such comparison(s))", cmp), short, "fetched-mapping-party-vs-identity")
+	}
+	r.Note("R-C11-3: %d further function(s) of %s fetch a mapping by id", nDisc, authPkg)
 	// DNS relays: explicit targets pass the entitlement helper
 	for _, name := range []string{"SessionManager.HandleDNSResolveRequest", "SessionManager.HandleDNSQueryRequest"} {
 		f := r.need("R-C11-3", sessPkg, name)
